@@ -134,7 +134,7 @@ def extract_params(raw):
         return None
 
     try:
-        return url_decode(raw)
+        return url_decode(to_unicode(raw))
     except ValueError:
         return None
 
